@@ -27,9 +27,7 @@ func TestCheck(t *testing.T) {
 var mode = hx.Mode{Stepwise: true, CheckErrs: true, Read: hx.ReadOpts{Config: true, Edges: false}}
 var modeEdges = hx.Mode{Stepwise: true, CheckErrs: true, Read: hx.ReadOpts{Config: true, Edges: true}}
 
-func cfg(metric, prec string) *hx.IdxCfg {
-	return &hx.IdxCfg{Metric: metric, Prec: prec, M: 2, EfC: 4}
-}
+func cfg(metric, prec string) *hx.IdxCfg { return hx.Cfg(metric, prec) }
 
 func alphabet() []hx.Op {
 	return []hx.Op{
@@ -59,113 +57,11 @@ func maintOps(index string) []hx.Op {
 	}
 }
 
-// bases are histories that each exercise one shortcut visible in the code.
-func bases() map[string][]hx.Op {
-	v := func(x, y float32) []float32 { return []float32{x, y} }
-	mk := func(metric, prec string) hx.Op { return hx.Op{K: hx.VCreate, I: "i", Cfg: cfg(metric, prec)} }
-	b := map[string][]hx.Op{}
-	b["del-readd"] = []hx.Op{mk("euclidean", "float32"),
-		{K: hx.VAdd, I: "i", ID: "a", V: v(1, 0), M: map[string]any{"s": "x"}},
-		{K: hx.VAdd, I: "i", ID: "b", V: v(0, 1)},
-		{K: hx.VDel, I: "i", ID: "a"},
-		{K: hx.VAdd, I: "i", ID: "a", V: v(1, 1), M: map[string]any{"s": "z"}},
-		{K: hx.VSetMeta, I: "i", ID: "a", M: map[string]any{"q": 2.0}},
-	}
-	b["batch-parallel"] = []hx.Op{mk("euclidean", "float32"),
-		{K: hx.VAddBatch, I: "i", Items: []hx.Item{{ID: "a", V: v(1, 0)}, {ID: "b", V: v(0, 1), M: map[string]any{"s": "x"}}, {ID: "c", V: v(1, 1)}, {ID: "d", V: v(-1, 0)}}},
-		{K: hx.VDel, I: "i", ID: "b"},
-		{K: hx.VAddBatch, I: "i", Items: []hx.Item{{ID: "e", V: v(0, -1), M: map[string]any{"n": 3.0}}, {ID: "b", V: v(2, 2)}, {ID: "f", V: nil}}},
-		{K: hx.VAdd, I: "i", ID: "g", V: v(3, 3)},
-		{K: hx.VDel, I: "i", ID: "e"},
-		{K: hx.VAddBatch, I: "i", Items: []hx.Item{{ID: "e", V: v(5, 5)}, {ID: "h", V: v(6, 6)}}},
-	}
-	b["import"] = []hx.Op{mk("euclidean", "float32"),
-		{K: hx.VImport, I: "i", Items: []hx.Item{{ID: "a", V: v(1, 0), M: map[string]any{"s": "x"}}, {ID: "b", V: v(0, 1)}}},
-		{K: hx.VImportCommit, I: "i"},
-		{K: hx.VAdd, I: "i", ID: "c", V: v(1, 1)},
-		{K: hx.VDel, I: "i", ID: "a"},
-	}
-	b["cosine"] = []hx.Op{mk("cosine", "float32"),
-		{K: hx.VAdd, I: "i", ID: "a", V: v(3, 4), M: map[string]any{"s": "x"}},
-		{K: hx.VAddBatch, I: "i", Items: []hx.Item{{ID: "b", V: v(0, 2)}, {ID: "c", V: v(-1, 1)}}},
-		{K: hx.VDel, I: "i", ID: "a"},
-		{K: hx.VAdd, I: "i", ID: "a", V: v(1, 0)},
-	}
-	b["f16"] = []hx.Op{mk("euclidean", "float16"),
-		{K: hx.VAdd, I: "i", ID: "a", V: v(0.1, 1000.5), M: map[string]any{"s": "x"}},
-		{K: hx.VAdd, I: "i", ID: "b", V: v(1, 0)},
-		{K: hx.VDel, I: "i", ID: "a"},
-		{K: hx.VAdd, I: "i", ID: "a", V: v(0.333, -2)},
-	}
-	b["int8"] = []hx.Op{mk("cosine", "int8"),
-		{K: hx.VAdd, I: "i", ID: "a", V: v(1, 0.5), M: map[string]any{"s": "x"}},
-		{K: hx.VAdd, I: "i", ID: "b", V: v(-1, 0.25)},
-		{K: hx.VDel, I: "i", ID: "a"},
-		{K: hx.VAdd, I: "i", ID: "a", V: v(0.75, -1)},
-	}
-	b["compress-f16"] = []hx.Op{mk("euclidean", "float32"),
-		{K: hx.VAdd, I: "i", ID: "a", V: v(0.1, 1), M: map[string]any{"s": "x"}},
-		{K: hx.VAdd, I: "i", ID: "b", V: v(1, 0)},
-		{K: hx.VDel, I: "i", ID: "b"},
-		{K: hx.Compress, I: "i", S: "float16"},
-		{K: hx.VAdd, I: "i", ID: "c", V: v(0.2, 0.3)},
-		{K: hx.VSetMeta, I: "i", ID: "a", M: map[string]any{"n": 1.0}},
-	}
-	b["compress-int8"] = []hx.Op{mk("cosine", "float32"),
-		{K: hx.VAdd, I: "i", ID: "a", V: v(1, 0), M: map[string]any{"s": "x"}},
-		{K: hx.VAdd, I: "i", ID: "b", V: v(0, 1)},
-		{K: hx.Compress, I: "i", S: "int8"},
-		{K: hx.VAdd, I: "i", ID: "c", V: v(-1, 0)},
-		{K: hx.VDel, I: "i", ID: "a"},
-	}
-	b["two-indexes"] = []hx.Op{mk("euclidean", "float32"),
-		{K: hx.VCreate, I: "j", Cfg: cfg("cosine", "float32")},
-		{K: hx.VAdd, I: "i", ID: "a", V: v(1, 0), M: map[string]any{"s": "x"}},
-		{K: hx.VAdd, I: "j", ID: "a", V: v(0, 3), M: map[string]any{"s": "y"}},
-		{K: hx.VDel, I: "i", ID: "a"},
-		{K: hx.VDropIndex, I: "j"},
-		{K: hx.VCreate, I: "j", Cfg: cfg("euclidean", "float32")},
-		{K: hx.VAdd, I: "j", ID: "b", V: v(1, 2, )},
-	}
-	b["memory"] = []hx.Op{{K: hx.VCreate, I: "i", Cfg: &hx.IdxCfg{Metric: "euclidean", Prec: "float32", M: 2, EfC: 4, Mem: "layers"}},
-		{K: hx.VAdd, I: "i", ID: "a", V: v(1, 0), M: map[string]any{"s": "x"}},
-		{K: hx.VAdd, I: "i", ID: "b", V: v(0, 1), M: map[string]any{"memory_layer": "procedural"}},
-		{K: hx.VReinforce, I: "i", IDs: []string{"a", "zz"}},
-		{K: hx.VReinforce, I: "i", IDs: []string{"a", "b"}},
-		{K: hx.VAddBatch, I: "i", Items: []hx.Item{{ID: "c", V: v(2, 2)}}},
-	}
-	b["dim3"] = []hx.Op{mk("euclidean", "float32"),
-		{K: hx.VAdd, I: "i", ID: "a", V: []float32{1, 2, 3}},
-		{K: hx.VAdd, I: "i", ID: "b", V: nil, M: map[string]any{"s": "entity"}},
-		{K: hx.VDel, I: "i", ID: "a"},
-		{K: hx.VAdd, I: "i", ID: "a", V: []float32{4, 5, 6}},
-	}
-	b["dim1"] = []hx.Op{mk("euclidean", "float32"),
-		{K: hx.VAdd, I: "i", ID: "a", V: []float32{1}},
-		{K: hx.VAddBatch, I: "i", Items: []hx.Item{{ID: "b", V: []float32{2}}, {ID: "c", V: []float32{-2}}}},
-		{K: hx.VDel, I: "i", ID: "b"},
-	}
-	return b
-}
-
-func evolveBases() map[string][]hx.Op {
-	v := func(x, y float32) []float32 { return []float32{x, y} }
-	b := map[string][]hx.Op{}
-	b["evolve"] = []hx.Op{{K: hx.VCreate, I: "i", Cfg: cfg("euclidean", "float32")},
-		{K: hx.VAdd, I: "i", ID: "a", V: v(1, 0), M: map[string]any{"s": "x", "tag": "keep"}},
-		{K: hx.VAdd, I: "i", ID: "b", V: v(0, 1)},
-		{K: hx.VLink, I: "i", ID: "b", ID2: "a", S: "r", W: 1},
-		{K: hx.VEvolve, I: "i", ID: "a", V: v(1, 1), M: map[string]any{"s": "y"}, S2: "why"},
-		{K: hx.VSetMeta, I: "i", ID: "a", M: map[string]any{"q": 1.0}},
-	}
-	return b
-}
-
 func runOne(c *vk.Ctx, h []hx.Op, m hx.Mode, label string) {
 	c.Eval(1)
 	c.Trans(int64(len(h)))
 	res := hx.Exec(h, m)
-	c.Outcome(res.ShortKinds())
+	c.Outcome(res.ShortKinds() + " errs=" + res.ErrPat)
 	if res.Final != nil {
 		if c.DistinctKey(res.Final.Key()) {
 			c.State(1)
@@ -242,7 +138,7 @@ func run(c *vk.Ctx) {
 		k = 2
 	}
 	names := []string{}
-	bs := bases()
+	bs := hx.Bases()
 	for n := range bs {
 		names = append(names, n)
 	}
@@ -257,7 +153,7 @@ func run(c *vk.Ctx) {
 			return !c.TimeUp()
 		})
 	}
-	for n, base := range evolveBases() {
+	for n, base := range hx.EvolveBases() {
 		hx.Placements(base, maintOps("i"), 1, 1, func(h []hx.Op) bool {
 			if c.Mine() {
 				runOne(c, h, modeEdges, "evolve")
